@@ -26,6 +26,43 @@ ASSUMPTIONS = ["vectors and matrix rows are only ever replaced (copying *_SET ar
 LOWER = "nsl/passes/LowerToIR.py"
 
 
+def _own_write_only(cls, recv) -> bool:
+    """`self.<f>...` where <f> is bound in __init__ to a fresh container of this object and is never *consulted*: every
+    read of it is the receiver of a write to it (`self.f[k] += 1`, `self.f.append(x)`) or the body of a pure accessor
+    (`return self.f` / `return dict(self.f)`).  Such a field cannot influence what the object computes."""
+    b = recv
+    while isinstance(b, ast.Subscript) or (isinstance(b, ast.Attribute) and not (isinstance(b.value, ast.Name))):
+        b = b.value
+    if not (isinstance(b, ast.Attribute) and isinstance(b.value, ast.Name)):
+        return False
+    fld = b.attr
+    init = cls.own_method("__init__")
+    if init is None:
+        return False
+    s0 = init.args.args[0].arg
+    fresh = any(isinstance(n, ast.Assign) and isinstance(n.targets[0], ast.Attribute) and n.targets[0].attr == fld and isinstance(n.targets[0].value, ast.Name) and n.targets[0].value.id == s0
+                and is_mutable_literal(n.value) and not any(isinstance(x, ast.Name) and x.id in {a.arg for a in init.args.args[1:]} for x in ast.walk(n.value)) for n in ast.walk(init))
+    if not fresh:
+        return False
+    for m in cls.methods.values():
+        if not m.args.args or m.name == "__init__":
+            continue
+        s = m.args.args[0].arg
+        body = [x for x in m.body if not (isinstance(x, ast.Expr) and isinstance(x.value, ast.Constant))]
+        accessor = len(body) == 1 and isinstance(body[0], ast.Return)
+        write_nodes = set()
+        for n in ast.walk(m):
+            if isinstance(n, (ast.AugAssign, ast.Assign)):
+                for t in (n.targets if isinstance(n, ast.Assign) else [n.target]):
+                    write_nodes |= {id(x) for x in ast.walk(t)}
+            if isinstance(n, ast.Expr) and isinstance(n.value, ast.Call) and isinstance(n.value.func, ast.Attribute) and n.value.func.attr in ("append", "add", "update", "setdefault", "extend"):
+                write_nodes |= {id(x) for x in ast.walk(n.value.func.value)}
+        for n in ast.walk(m):
+            if isinstance(n, ast.Attribute) and n.attr == fld and isinstance(n.value, ast.Name) and n.value.id == s and id(n) not in write_nodes and not accessor:
+                return False
+    return True
+
+
 def run(model, col, tier):
     vm = VMModel(model)
     ec = vm.ec
@@ -96,6 +133,8 @@ def run(model, col, tier):
                     ok_ = True
                 elif rn == selfn and m.name == "__init__":
                     ok_ = True
+                elif rn == selfn and isinstance(recv, (ast.Attribute, ast.Subscript)) and _own_write_only(cls, recv):
+                    ok_ = True  # a counter / log of this object that nothing but an accessor ever reads (statistics)
                 else:
                     why = f"`{unparse(node)[:70]}` mutates `{rtxt}`"
                 col.check(ok_, "R15.1", f"{VM}::{cls.name}.{m.name} mutates {rtxt[:40]}", "the receiver is owned by the activation / this VM",
@@ -210,7 +249,9 @@ def run(model, col, tier):
     fresh_ret = bool(rets_) and all(isinstance(r, (ast.Dict, ast.DictComp)) or (isinstance(r, ast.Name) and any(isinstance(v, (ast.Dict, ast.DictComp)) or (isinstance(v, ast.Call) and dotted(v.func) in ("dict", "OrderedDict", "collections.OrderedDict")) for v in find_assign(cs, r.id))) for r in rets_)
     col.check(per_field and fresh_ret, "R15.4", f"{VM}::__CreateStructureInstance", "a fresh dict with one fresh instance per field", "a structure instance is not a fresh dict of fresh field instances", VM, cs)
     ci = ec.own_method("__CreateInstance")
-    arr = [n for n in ast.walk(ci) if isinstance(n, ast.ListComp) and any(isinstance(c, ast.Call) and "__CreateInstance" in unparse(c.func) for c in ast.walk(n.elt))]
+    # (the per-dimension construction may be a nested function or a private method of the class that __CreateInstance calls)
+    ci_helpers = [m_ for nm_, m_ in ec.methods.items() if m_ is not ci and any(isinstance(c, ast.Call) and last_attr(c) in (nm_, nm_.lstrip("_"), "__" + nm_.split("__")[-1]) for c in ast.walk(ci))]
+    arr = [n for f_ in [ci] + ci_helpers for n in ast.walk(f_) if isinstance(n, ast.ListComp) and any(isinstance(c, ast.Call) and "__CreateInstance" in unparse(c.func) for c in ast.walk(n.elt))]
     col.check(bool(arr), "R15.4", f"{VM}::__CreateInstance array elements", "one instance is created per array element (comprehension)", "array elements are not created one by one", VM, ci)
     nv = vm.arm("NEW_VARIABLE")
     col.check(any("self.__CreateInstance(" in unparse(s) for s in nv.body), "R15.4", f"{VM}::__Execute NEW_VARIABLE", "each executed declaration creates its instance", None, VM, nv.case)
